@@ -935,7 +935,10 @@ double myatof(const char* s)
 		if (c == 'E' || c == 'e') break;
 		y1 = 10 * y1 + (c - '0');
 	}
-	y = double(y1) * pow(10.0, exp);
+	if (exp < -290) // pow(10, exp) would be subnormal (or zero) and lose the digits: scale in two steps
+		y = double(y1) * 1e-290 * pow(10.0, exp + 290);
+	else
+		y = double(y1) * pow(10.0, exp);
 	return y * m;
 }
 
